@@ -40,17 +40,45 @@ def acyclic2(nodes):
     return all(x not in lvl1.get(x, ()) and x not in lvl2.get(x, ()) for x in stored)
 
 
-def check_db(db, nodes, res, lines, what):
+CFG = dbside.Cfg()
+
+
+def mk_case(scenario, lines, nodes, **kw):
+    """a self-contained case: the lines in the order they are imported, the generator's node of every line, the
+    configuration; scenario arguments in kw"""
+    return dict({"scenario": scenario, "input": list(lines), "records": list(nodes), "parallel": ["records"],
+                 "config": CFG.to_json()}, **kw)
+
+
+def in_domain(nodes):
+    ids = [x["id"] for x in nodes]
+    return len(set(ids)) == len(ids) and acyclic2(nodes)
+
+
+def import_lines(ctx, lines, cfg, name="g.gff3", header=True):
+    path = dbside.write_lines(os.path.join(ctx.scratch, name), (["##gff-version 3"] if header else []) + list(lines))
+    return dbside.py_create(path, cfg)
+
+
+def check_created(case, db, rep, res):
+    if db is None:
+        common.fail(res, case, "create_db_raised", "create_db raised on a GFF3 graph (dangling parents must be harmless): " + rep,
+                    error=rep, observed=rep, expected="ok")
+        return False
+    return True
+
+
+def check_db(db, nodes, res, case):
+    """children()/parents() at every level for every stored id and two absent ids, against the Parent graph"""
     stored, lvl1, lvl2 = graph_oracle(nodes)
-    bytype = {x["id"]: x for x in nodes}
     try:
         all_ids = [f.id for f in db.all_features()]
     except Exception as ex:
-        res.oracle_failures.append(("all_features raised %r" % ex, {"lines": lines}))
+        common.fail(res, case, "all_features_raised", "all_features raised %r" % ex, error=dbside.err_name(ex), observed=repr(ex))
         return
     if sorted(all_ids) != sorted(stored):
-        res.oracle_failures.append(("stored features are not exactly the input lines (phantom or missing feature)",
-                                    {"lines": lines, "stored": sorted(all_ids)}))
+        common.fail(res, case, "stored_features_differ", "stored features are not exactly the input lines (phantom or missing feature)",
+                    observed=sorted(all_ids), expected=sorted(stored))
         return
     for x in sorted(stored) + ["ghost0", "nonexistent"]:
         want = {1: lvl1.get(x, set()) & stored, 2: lvl2.get(x, set()) if x in stored else set()}
@@ -59,18 +87,18 @@ def check_db(db, nodes, res, lines, what):
             try:
                 got = [f.id for f in db.children(x, level=level)]
             except Exception as ex:
-                res.oracle_failures.append(("children(%r, level=%r) raised %r" % (x, level, ex), {"lines": lines}))
+                common.fail(res, case, "children_raised", "children(%r, level=%r) raised %r" % (x, level, ex),
+                            error=dbside.err_name(ex), id=x, level=level, observed=repr(ex))
                 continue
             res.evaluations += 1
             if len(got) != len(set(got)):
-                res.oracle_failures.append(("children(%r, level=%r) returns a feature more than once" % (x, level),
-                                            {"lines": lines, "returned": got, "scenario": what}))
+                common.fail(res, case, "children_duplicate", "children(%r, level=%r) returns a feature more than once" % (x, level),
+                            id=x, level=level, observed=got)
             elif set(got) != want[level]:
-                res.oracle_failures.append(("children(%r, level=%r) is not the Parent graph" % (x, level),
-                                            {"lines": lines, "returned": sorted(got), "expected": sorted(want[level]),
-                                             "scenario": what}))
+                common.fail(res, case, "children_not_parent_graph", "children(%r, level=%r) is not the Parent graph" % (x, level),
+                            id=x, level=level, observed=sorted(got), expected=sorted(want[level]))
             if x in got:
-                res.oracle_failures.append(("%r is its own child" % x, {"lines": lines}))
+                common.fail(res, case, "own_child", "%r is its own child" % x, id=x, level=level, observed=got)
         # parents: exact inverse
         if x in stored:
             for level in (1, 2, None):
@@ -83,9 +111,104 @@ def check_db(db, nodes, res, lines, what):
                 got = [f.id for f in db.parents(x, level=level)]
                 res.evaluations += 1
                 if len(got) != len(set(got)) or set(got) != inv:
-                    res.oracle_failures.append(("parents(%r, level=%r) is not the inverse of children" % (x, level),
-                                                {"lines": lines, "returned": sorted(got), "expected": sorted(inv),
-                                                 "scenario": what}))
+                    common.fail(res, case, "parents_not_inverse", "parents(%r, level=%r) is not the inverse of children" % (x, level),
+                                id=x, level=level, observed=sorted(got), expected=sorted(inv))
+
+
+def check_order(case, rels, other_rels, res):
+    """the relation set of the lines in this order against that of the same lines in the order given by the ranks"""
+    if rels != other_rels:
+        common.fail(res, case, "relations_depend_on_order", "the relation set depends on the order of the lines",
+                    observed=[list(x) for x in rels], expected=[list(x) for x in other_rels])
+
+
+def check_children_args(case, db, nodes, res):
+    """children(id, featuretype=, order_by='start', reverse=)"""
+    stored, lvl1, lvl2 = graph_oracle(nodes)
+    x, ft, rev = case["id"], case["featuretype"], case["reverse"]
+    got = [f.id for f in db.children(x, featuretype=ft, order_by="start", reverse=rev)]
+    want = [y for y in (lvl1.get(x, set()) & stored) | lvl2.get(x, set())]
+    byid = {n["id"]: n for n in nodes}
+    if ft is not None:
+        fts = [ft] if isinstance(ft, str) else ft
+        want = [y for y in want if byid[y]["ftype"] in fts]
+    keys = [byid[y]["start"] for y in got if y in byid]
+    if sorted(got) != sorted(want) or keys != sorted(keys, reverse=rev):
+        common.fail(res, case, "children_args_wrong", "children(featuretype=%r, order_by='start', reverse=%r) wrong" % (ft, rev),
+                    observed=got, observed_starts=keys, expected_set=sorted(want))
+    res.evaluations += 1
+
+
+EXTRA_LINE = "chrZ\tsrc\tregion\t1\t2\t.\t+\t.\tID=zz_extra"
+
+
+def check_create_update(ctx, case, nodes, res, draw_extra=None):
+    """the same graph reached through create_db of the phase-0 lines + update of the phase-1 lines (+ optionally a
+    further update with one unrelated line): relations are recomputed on a table that already holds level-2 rows.
+    "extra" is drawn (draw_extra) once the first update went through, as the run always did, and recorded in the case."""
+    lines = case["input"]
+    first = [l for l, ph in zip(lines, case["phase"]) if ph == 0]
+    rest = [l for l, ph in zip(lines, case["phase"]) if ph == 1]
+    if not first or not rest or first + rest != list(lines):
+        return
+    cfg = dbside.Cfg.from_json(case["config"])
+    dbu, repu = import_lines(ctx, first, cfg, "g1.gff3", header=False)
+    if dbu is None:
+        return
+    p2 = dbside.write_lines(os.path.join(ctx.scratch, "g2.gff3"), rest)
+    try:
+        dbu.update(p2, make_backup=False, **cfg.update_kwargs())
+        if "extra" not in case:
+            case["extra"] = draw_extra() if draw_extra else False
+        if case["extra"]:
+            dbu.update(dbside.write_lines(os.path.join(ctx.scratch, "g3.gff3"), [EXTRA_LINE]),
+                       make_backup=False, **cfg.update_kwargs())
+            nodes_u = list(nodes) + [{"id": "zz_extra", "parents": [], "ftype": "region", "level": 0}]
+        else:
+            nodes_u = nodes
+        check_db(dbu, nodes_u, res, case)
+    except Exception as ex:
+        common.fail(res, case, "update_raised", "update raised %r" % ex, error=dbside.err_name(ex), observed=repr(ex))
+
+
+def check_iter(case, db, nodes, res):
+    stored, lvl1, lvl2 = graph_oracle(nodes)
+    for unit in db.iter_by_parent_childs(featuretype="gene"):
+        p = unit[0].id
+        kids = sorted(f.id for f in unit[1:])
+        want = sorted((lvl1.get(p, set()) & stored) | lvl2.get(p, set()))
+        if kids != want:
+            common.fail(res, case, "iter_by_parent_childs_wrong", "iter_by_parent_childs yields wrong children for %r" % p,
+                        id=p, observed=kids, expected=want)
+
+
+def judge(ctx, case):
+    """rebuild the case and run the oracle(s) of its scenario on the real code; a fresh Result"""
+    res = common.Result("C02")
+    lines, nodes = case["input"], case["records"]
+    if len(lines) != len(nodes) or not in_domain(nodes):
+        return res
+    cfg = dbside.Cfg.from_json(case["config"])
+    sc = case["scenario"]
+    if sc == "create_update":
+        check_create_update(ctx, dict(case), nodes, res)
+        return res
+    db, rep = import_lines(ctx, lines, cfg)
+    if not check_created(case, db, rep, res):
+        return res
+    if sc == "import":
+        check_db(db, nodes, res, case)
+    elif sc == "order_independence":
+        rank = case["rank"]
+        other = [lines[j] for j in sorted(range(len(lines)), key=lambda j: rank[j])]
+        db2, rep2 = import_lines(ctx, other, cfg, "go.gff3")
+        if db2 is not None:
+            check_order(case, sorted(dbside.rels_of(db)), sorted(dbside.rels_of(db2)), res)
+    elif sc == "children_args":
+        check_children_args(case, db, nodes, res)
+    elif sc == "iter_by_parent_childs":
+        check_iter(case, db, nodes, res)
+    return res
 
 
 def run(ctx):
@@ -98,7 +221,7 @@ def run(ctx):
                 "iter_by_parent_childs. non-trivial = distinct graph with >= 1 level-2 relation")
     cmds, exp, tags = [], [], []
     ngraphs = 150 if not ctx.thorough else 1000
-    cfg = dbside.Cfg()
+    cfg = CFG
     for gi in range(ngraphs):
         nodes = gen_db.rand_gff3_graph(r, n=r.choice([1, 2, 3, 4, 5, 6, 6, 8, 11, 15]))
         if not acyclic2(nodes):
@@ -110,23 +233,22 @@ def run(ctx):
         if len(nodes) > 4 and not ctx.thorough:
             orders = orders[:: max(1, len(orders) // 12)]
         first_rel = None
+        pos0 = {bi: k for k, bi in enumerate(orders[0])}
         for oi, order in enumerate(orders):
             lines = [base_lines[i] for i in order]
-            path = dbside.write_lines(os.path.join(ctx.scratch, "g.gff3"), ["##gff-version 3"] + lines)
-            db, rep = dbside.py_create(path, cfg)
+            onodes = [nodes[i] for i in order]
+            db, rep = import_lines(ctx, lines, cfg)
             res.evaluations += 1
-            if db is None:
-                res.oracle_failures.append(("create_db raised on a GFF3 graph (dangling parents must be harmless): " + rep,
-                                            {"lines": lines}))
+            if not check_created(mk_case("import", lines, onodes, permutation=oi), db, rep, res):
                 continue
             rels = sorted(dbside.rels_of(db))
             if first_rel is None:
                 first_rel = rels
-            elif rels != first_rel:
-                res.oracle_failures.append(("the relation set depends on the order of the lines",
-                                            {"lines": lines, "relations": rels, "relations_other_order": first_rel}))
+            else:
+                check_order(mk_case("order_independence", lines, onodes, rank=[pos0[i] for i in order],
+                                    parallel=["records", "rank"]), rels, first_rel, res)
             if oi < 3 or oi == len(orders) - 1:
-                check_db(db, nodes, res, lines, "permutation %d" % oi)
+                check_db(db, onodes, res, mk_case("import", lines, onodes, permutation=oi))
             if oi == 0:
                 if lvl2:
                     res.nontriv(tuple(base_lines))
@@ -149,45 +271,16 @@ def run(ctx):
                 for x in ids[:3]:
                     ft = r.choice(["exon", "mRNA", ["exon", "CDS"], None])
                     rev = r.random() < 0.5
-                    got = [f.id for f in db.children(x, featuretype=ft, order_by="start", reverse=rev)]
-                    want = [y for y in (lvl1.get(x, set()) & stored) | lvl2.get(x, set())]
-                    byid = {n["id"]: n for n in nodes}
-                    if ft is not None:
-                        fts = [ft] if isinstance(ft, str) else ft
-                        want = [y for y in want if byid[y]["ftype"] in fts]
-                    keys = [byid[y]["start"] for y in got]
-                    if sorted(got) != sorted(want) or keys != sorted(keys, reverse=rev):
-                        res.oracle_failures.append(("children(featuretype=%r, order_by='start', reverse=%r) wrong" % (ft, rev),
-                                                    {"lines": lines, "id": x, "returned": got, "expected_set": sorted(want)}))
-                    res.evaluations += 1
+                    check_children_args(mk_case("children_args", lines, onodes, id=x, featuretype=ft, reverse=rev), db, onodes, res)
                 # the same graph reached through create_db of a prefix + update of the rest (relations are
                 # recomputed on a table that already holds level-2 rows)
                 if len(lines) >= 2:
                     cut = r.randrange(1, len(lines))
-                    p1 = dbside.write_lines(os.path.join(ctx.scratch, "g1.gff3"), lines[:cut])
-                    p2 = dbside.write_lines(os.path.join(ctx.scratch, "g2.gff3"), lines[cut:])
-                    dbu, repu = dbside.py_create(p1, cfg)
-                    if dbu is not None:
-                        try:
-                            dbu.update(p2, make_backup=False, **cfg.update_kwargs())
-                            if r.random() < 0.5:
-                                dbu.update(dbside.write_lines(os.path.join(ctx.scratch, "g3.gff3"),
-                                                             ["chrZ\tsrc\tregion\t1\t2\t.\t+\t.\tID=zz_extra"]),
-                                           make_backup=False, **cfg.update_kwargs())
-                                nodes_u = nodes + [{"id": "zz_extra", "parents": [], "ftype": "region", "level": 0}]
-                            else:
-                                nodes_u = nodes
-                            check_db(dbu, nodes_u, res, lines, "create_db(first %d lines) + update(rest)" % cut)
-                        except Exception as ex:
-                            res.oracle_failures.append(("update raised %r" % ex, {"lines": lines, "cut": cut}))
+                    check_create_update(ctx, mk_case("create_update", lines, onodes, parallel=["records", "phase"],
+                                                     phase=[0] * cut + [1] * (len(lines) - cut)),
+                                        onodes, res, draw_extra=lambda: r.random() < 0.5)
                 # iter_by_parent_childs
-                for unit in db.iter_by_parent_childs(featuretype="gene"):
-                    p = unit[0].id
-                    kids = sorted(f.id for f in unit[1:])
-                    want = sorted((lvl1.get(p, set()) & stored) | lvl2.get(p, set()))
-                    if kids != want:
-                        res.oracle_failures.append(("iter_by_parent_childs yields wrong children for %r" % p,
-                                                    {"lines": lines, "returned": kids, "expected": want}))
+                check_iter(mk_case("iter_by_parent_childs", lines, onodes), db, onodes, res)
     out = ctx.model(cmds)
     if out is not None:
         for c, m, e, (comp, inp) in zip(cmds, out, exp, tags):
@@ -198,10 +291,9 @@ def run(ctx):
                 res.corr_disagreements.append((comp, inp[:800], m[:800], e[:800]))
     res.assumptions = ["IDs are unique, free of tab and of leading/trailing whitespace (the importer passes ids through a "
                        "tab-separated temp file)", "no feature is its own ancestor within two steps"]
+    common.shrink_first_failure(res, lambda case: judge(ctx, case))
     return res
 
 
 def replay(ctx, payload):
-    res = common.Result("C02")
-    print("replay:", payload.get("what"), payload.get("input", {}).get("lines"))
-    return res
+    return common.replay_failure("C02", payload, lambda case: judge(ctx, case))
